@@ -195,6 +195,9 @@ pub struct PlanB {
     pub out_dup_p: f64,
     pub out_delay_p: f64,
     pub qid_bits: u32,
+    /// low-entropy query ids are drawn next to 0xffff instead of next to 0
+    #[serde(default)]
+    pub qid_high: bool,
     /// size of erbium's host's ephemeral port range (0: default)
     #[serde(default)]
     pub eph_ports: u16,
@@ -554,6 +557,7 @@ pub fn generate(seed: u64, g: &GenB) -> PlanB {
         out_delay_p: if faulty && r.chance(0.3) { 0.2 } else { 0.0 },
         qid_bits: if idreuse { 3 } else if faulty && r.chance(0.3) { *r.pick(&[6u32, 3]) } else { 16 },
         eph_ports: 0,
+        qid_high: false,
         send_err_p: 0.0,
         sndbuf: *r.pick(&[4096usize, 16384, 65536, 1 << 20, 1 << 20]),
         max_seg: *r.pick(&[0usize, 0, 0, 1460, 536]),
@@ -829,6 +833,11 @@ pub fn generate(seed: u64, g: &GenB) -> PlanB {
         if faulty && k.chance(0.3) {
             p.send_err_p = *k.pick(&[0.02, 0.1, 0.3]);
         }
+        if shape == "burst" && k.chance(0.5) {
+            /* many queries in flight on otherwise healthy upstreams, eight possible ids */
+            p.qid_bits = 3;
+        }
+        p.qid_high = p.qid_bits < 16 && k.chance(0.5);
     }
     if shape == "hostile" {
         let mut k = Rng::new(seed, "plan-b-nowhere");
@@ -1359,6 +1368,20 @@ fn add_hostile(p: &mut PlanB, r: &mut Rng) {
         }
         h.qname = Name::parse(&format!("h{}.{}", i, q.qname.to_text()));
         let at = h.at_ms;
+        if matches!(h.up, UpBehaviour::Hostile { .. }) {
+            /* whatever erbium kept of the hostile reply is exercised by asking again for the
+             * same key a little later (not judged; a panic is) */
+            for (j, later) in [1_200u64, 3_500, 40_000].iter().enumerate() {
+                let mut again = h.clone();
+                again.at_ms = at + later;
+                again.src_port = 62_000 + (i as u16 % 1000) * 3 + j as u16;
+                again.id = r.below(65536) as u16;
+                again.up = UpBehaviour::Normal { delay_ms: 10 };
+                again.flood = true;
+                again.tcp = j == 1 && again.tcp;
+                out.push(again);
+            }
+        }
         out.push(h);
         let mut probe = q.clone();
         probe.at_ms = at + 1500;
